@@ -36,6 +36,8 @@ def _task(args):
         part.run(rec, seed=seed, shard=shard, nshards=nshards, tier=tier)
     except Violation as v:
         rec.add_violation(v)
+    except core.StopSearch:
+        pass
     except BaseException:  # harness error
         rec.harness_error = traceback.format_exc()
     finally:
@@ -273,6 +275,8 @@ def _replay(mod, pid, path):
         print(f"  {v.kind}: {v.message[:2000]}", file=sys.stderr)
         print(f"VIOLATION property={pid} replay={path}")
         return 1
+    except core.StopSearch:
+        pass                      # the violation was recorded in rec
     except BaseException:
         traceback.print_exc()
         return 2
